@@ -15,6 +15,7 @@
 From Coq Require Import ZArith List Bool String Ascii.
 Import ListNotations.
 Require Import SC3.gen.Gen_scgftables.   (* REGENERATED: rate tables, reader class tables *)
+Require SC3.gen.Gen_opcodes.             (* REGENERATED (C01's target): operator tables *)
 Open Scope Z_scope.
 
 Definition bytes := list Z.
@@ -489,6 +490,36 @@ Definition inputs_resolve (nconsts : Z) (npos : Z) (ins : list inp) : bool :=
                     | IOut u _ => (0 <=? u) && (u <? npos)
                     end) ins.
 
+(* UnaryOpUGen._new_from_desc / BinaryOpUGen._new_from_desc: the operator name is looked up by the
+   special index in the unary / binary operator table (_si.sc_opname_from_index; a Python list index:
+   IndexError outside -len..len-1, negative indices count from the end).  Every other class keeps
+   SynthObject._new_from_desc / MultiOutUGen._new_from_desc, which do not use the special index. *)
+Definition unop_cls : bytes := bs_of_string "UnaryOpUGen".
+Definition binop_cls : bytes := bs_of_string "BinaryOpUGen".
+Definition table_name (tab : list (list string)) (i : Z) : option bytes :=
+  let n := zlen tab in
+  let j := if i <? 0 then i + n else i in
+  if (j <? 0) || (n <=? j) then None
+  else match nth_error tab (Z.to_nat j) with
+       | Some (nm :: _) => Some (bs_of_string nm)
+       | _ => None                       (* an empty row: item[0] raises *)
+       end.
+(* Some None: not an operator unit; Some (Some name): the recovered operator; None: the reader raises *)
+Definition unit_operator (u : ugen) : option (option bytes) :=
+  if bytes_eqb (u_cls u) unop_cls then
+    match table_name Gen_opcodes.unops_list (u_special u) with Some n => Some (Some n) | None => None end
+  else if bytes_eqb (u_cls u) binop_cls then
+    match table_name Gen_opcodes.binops_list (u_special u) with Some n => Some (Some n) | None => None end
+  else Some None.
+Fixpoint unit_operators (us : list ugen) : option (list (option bytes)) :=
+  match us with
+  | [] => Some []
+  | u :: r => match unit_operator u, unit_operators r with
+              | Some o, Some os => Some (o :: os)
+              | _, _ => None
+              end
+  end.
+
 (* one pass over the unit specs, state = (controls, inputs, outputs, units read so far) *)
 Fixpoint read_units (consts : list Z) (cs : list ctl) (ins outs : list iodesc) (before us : list ugen)
   : option (list ctl * list iodesc * list iodesc) :=
@@ -497,6 +528,7 @@ Fixpoint read_units (consts : list Z) (cs : list ctl) (ins outs : list iodesc) (
   | u :: r =>
     if negb (rate_ok (u_rate u)) then None else
     if negb (inputs_resolve (zlen consts) (zlen before) (u_ins u)) then None else
+    if match unit_operator u with Some _ => false | None => true end then None else
     if is_ctl_cls (u_cls u) then
       match set_rates cs (u_special u) (List.length (u_outs u)) (u_rate u) with
       | Some cs' => read_units consts cs' ins outs (before ++ [u]) r
@@ -660,7 +692,8 @@ Definition declared_ok (ds : option desc) (decl : list (bytes * Z * Z * list Z))
 Definition check_case (bs : bytes) (order : list (Z * bool)) (libdesc : option desc)
            (names3 : list (bytes * Z * Z)) (vsrc : list (bytes * list (bytes * list Z)))
            (decl : list (bytes * Z * Z * list Z)) (libname : option bytes)
-           (wantname : bytes) (truth : list ugen) (truthk : list Z) : Z :=
+           (wantname : bytes) (truth : list ugen) (truthk : list Z)
+           (libops : option (list (option bytes))) : Z :=
   match parse_def bs with
   | Err _ => 1                                                     (* real bytes do not parse *)
   | Ok d =>
@@ -674,6 +707,8 @@ Definition check_case (bs : bytes) (order : list (Z * bool)) (libdesc : option d
        in order, constant table, definition name *)
     if negb (list_eqb ugen_eqb (d_units d) truth && list_eqb Z.eqb (d_consts d) truthk) then 9 else
     if negb (bytes_eqb (d_name d) wantname) then 10 else
+    (* the operator every Unary/BinaryOpUGen is rebuilt with by the library reader *)
+    if negb (opt_eqb (list_eqb (opt_eqb bytes_eqb)) (unit_operators (d_units d)) libops) then 11 else
     if list_eqb variant_eqb (resolve_variants (d_name d) (d_ctl d) names3 vsrc) (d_variants d) then 0 else 6
   end.
 
@@ -682,7 +717,8 @@ Definition check_case (bs : bytes) (order : list (Z * bool)) (libdesc : option d
 Definition check_case_light (bs : bytes) (order : list (Z * bool)) (libdesc : option desc)
            (names3 : list (bytes * Z * Z)) (vsrc : list (bytes * list (bytes * list Z)))
            (decl : list (bytes * Z * Z * list Z)) (libname : option bytes)
-           (wantname : bytes) (truth : list ugen) (truthk : list Z) : Z :=
+           (wantname : bytes) (truth : list ugen) (truthk : list Z)
+           (libops : option (list (option bytes))) : Z :=
   match parse_def bs with
   | Err _ => 1
   | Ok d =>
@@ -692,6 +728,7 @@ Definition check_case_light (bs : bytes) (order : list (Z * bool)) (libdesc : op
     if negb (opt_eqb bytes_eqb (def_name_of bs) libname) then 8 else
     if negb (list_eqb ugen_eqb (d_units d) truth && list_eqb Z.eqb (d_consts d) truthk) then 9 else
     if negb (bytes_eqb (d_name d) wantname) then 10 else
+    if negb (opt_eqb (list_eqb (opt_eqb bytes_eqb)) (unit_operators (d_units d)) libops) then 11 else
     if negb (list_eqb pname_eqb (d_names d) (List.map (fun p => let '(n, i, _, _) := p in (n, i)) decl)) then 7 else 0
   end.
 
@@ -710,7 +747,8 @@ Definition check_expect (base name : bytes) names3 vsrc (impl : option bytes) : 
 
 (* hand-made bytes through all three readers: 0 = agree.  od = the structure the bytes were made from
    (None: the bytes are damaged, the parser must refuse them) *)
-Definition synth_check (bs : bytes) (od : option sdef) (libdesc : option desc) (libname : option bytes) : Z :=
+Definition synth_check (bs : bytes) (od : option sdef) (libdesc : option desc) (libname : option bytes)
+           (libops : option (list (option bytes))) : Z :=
   let parse_ok := match parse_def bs, od with
                   | Ok d, Some d' => sdef_eqb d d'
                   | Err _, None => true
@@ -719,4 +757,7 @@ Definition synth_check (bs : bytes) (od : option sdef) (libdesc : option desc) (
   if negb parse_ok then 1 else
   if negb (match od with Some d => opt_eqb bytes_eqb (write_def d) (Some bs) | None => true end) then 3 else
   if negb (opt_eqb desc_eqb (read_desc bs) libdesc) then 5 else
-  if negb (opt_eqb bytes_eqb (def_name_of bs) libname) then 8 else 0.
+  if negb (opt_eqb bytes_eqb (def_name_of bs) libname) then 8 else
+  if negb (match od, libdesc with
+           | Some d, Some _ => opt_eqb (list_eqb (opt_eqb bytes_eqb)) (unit_operators (d_units d)) libops
+           | _, _ => true end) then 11 else 0.
